@@ -133,9 +133,36 @@ def canon_cell(c):
 _TASK = {}
 
 
+# which discrepancies with the reference machine matter to which property
+#   C05: everything on points where the reference accepts (in-order fragments, unfragmented
+#        sentences) - result, delivered data, post-state - and uncovered points (a panic);
+#   C06: the code accepts where the reference rejects, delivers other data than the reference, or
+#        leaves a different state behind an *accepting* transition; uncovered points;
+#   C07: the delivered data only;
+#   C17: points where the reference rejects for sequencing, or the sentence is unfragmented: result
+#        and post-state (a trace).
+def relevant(pid, name, ref_result, cell_result, n_is_1):
+    acc_ref = ref_result in (ref.INCOMPLETE, ref.COMPLETE, ref.ERR_DECODE)
+    acc_cell = cell_result in ("ok:Incomplete", "ok:Complete", "err:decode")
+    if pid == "C05":
+        return acc_ref or n_is_1
+    if pid == "C06":
+        if name == "result":
+            return acc_cell and not acc_ref
+        if name == "delivered":
+            return acc_cell
+        return acc_cell and acc_ref and not n_is_1
+    if pid == "C07":
+        return name == "delivered" and acc_cell and acc_ref
+    if pid == "C17":
+        return (ref_result == ref.ERR_SEQ or n_is_1) and name in ("result", "post_sid", "post_s", "post_D")
+    return True
+
+
 def _eval_task(args):
     """one (shape group, id class, decode) block of the guard domain; returns violations"""
     gi, ci, decode = args
+    pid = _TASK["pid"]
     cells, tier = _TASK["groups"][gi], _TASK["tier"]
     v, K, N, S = domain(tier)
     c0 = cells[0]
@@ -185,6 +212,8 @@ def _eval_task(args):
                     for name in names:
                         want = int(R[name][idx])
                         got = describe_label(c, name)
+                        if not relevant(pid, name, int(R["result"][idx]), c.result, pt[1] == 1):
+                            continue
                         codes = {"result": RES, "post_D": DD, "delivered": DEL, "post_sid": SID, "post_s": SS}[name]
                         if name == "post_sid" and id_equal:
                             continue
@@ -193,8 +222,18 @@ def _eval_task(args):
                                         "for fragment k=%d of n=%d with stored fragment number s=%d, ids %s, decode=%d: %s is %s, the reference machine says %s" % (
                                             pt[0], pt[1], pt[2], cname, decode, name, got, ref_name(name, want)), gi))
         npoints += cover.size
-        if (cover == 0).any():
-            idx = tuple(np.argwhere(cover == 0)[0])
+        holes = cover == 0
+        if pid in ("C05", "C17", "C07"):
+            acc = (R["result"] == ref.INCOMPLETE) | (R["result"] == ref.COMPLETE) | (R["result"] == ref.ERR_DECODE)
+            n1 = np.broadcast_to(N == 1, holes.shape)
+            if pid == "C05":
+                holes = holes & (acc | n1)
+            elif pid == "C17":
+                holes = holes & ((R["result"] == ref.ERR_SEQ) | n1)
+            else:
+                holes = holes & False
+        if holes.any():
+            idx = tuple(np.argwhere(holes)[0])
             pt = (int(v[idx[0]]), int(v[idx[1]]), int(svals[idx[2]]))
             out.append(("v", "fsm/uncovered/k%d,n%d,s%d,%s,decode%d,u%d,p%d" % (pt[0], pt[1], pt[2], cname, decode, u_ok, p_ok),
                         "no extracted transition covers k=%d n=%d s=%d ids %s decode=%d (a panic or an unanalysed path)" % (pt[0], pt[1], pt[2], cname, decode), gi))
@@ -226,6 +265,7 @@ def compare(ctx, chk, pid, cfg, tier):
             reps.append(lst[0])
     _TASK["groups"] = reps
     _TASK["tier"] = tier
+    _TASK["pid"] = pid
     tasks = []
     for gi, cells in enumerate(reps):
         for ci in range(len(id_classes(cells[0]))):
